@@ -198,6 +198,22 @@ CLAIMED["C20"] = dict(
     ref="DESIGN.md section 2 / C20",
     note=NOTE_COMMON + "; matplotlib replaced by a recording Axes (the claim is about the arguments handed over, not the rendering); geometry concrete",
 )
+CLAIMED["C18"] = dict(
+    text="Reduced scope (DESIGN 2/C18): field_rotator.py runs under a 3x3-matrix stub of scipy Rotation and a multilinear stub "
+         "of RegularGridInterpolator. Decided: (a) for concrete rational rotations (quarter turns, 3-4-5 and 5-12-13 rotations "
+         "about each axis, products) on concrete anisotropic meshes with symbolic cell values in [-1,1], every new cell whose "
+         "back-rotated centre lies at least one cell inside carries Q applied to the linear interpolation (independent exact "
+         "rational weights; component pairing through identity, swapped and cyclic mappings), every cell whose back-rotated "
+         "centre lies outside carries zero; uniform fields become Q v and linear scalar fields are reproduced (symbolic "
+         "coefficients); (b) two successive rotations equal the rotation by the product (later after earlier) cell by cell, "
+         "clearing restores the original; (c) the new region has the same centre, contains every rotated corner and each of "
+         "its faces is touched by one, for a symbolic unconstrained 3x3 matrix and symbolic edges; (d) a quarter turn on cubic "
+         "cells equals rotate90; (e) refusals. Natively with the real SciPy: quaternion / rotation vector / Euler / matrix / "
+         "align_vector (acute, right, obtuse; and back) parametrisations, nanometre-scale meshes, default resolution.",
+    ref="DESIGN.md section 2 / C18",
+    note=NOTE_COMMON + "; the quantifier over ALL rotations is not reached for the resampling (the cell a back-rotated point falls in is a "
+         "nonlinear function of the rotation): rotations are concrete there; cells within one cell of the back-rotated boundary are not constrained",
+)
 PENDING_REASON = "check not built yet in this round (planned: DESIGN.md section 2); not claimed until it runs green"
 NA = {}
 
